@@ -147,6 +147,19 @@ func (b *Builder) AddCapture(captureIndex uint32, isStart bool, next StateID) St
 // look is the assertion type (start/end of text/line).
 // next is the state to transition to if the assertion succeeds.
 func (b *Builder) AddLook(look Look, next StateID) StateID {
+	// Whether the assertion holds depends on the neighbouring byte, so bytes
+	// that decide it differently must not share a DFA byte class: a cached
+	// transition for the class would otherwise be reused for a byte on the
+	// other side of the boundary.
+	switch look {
+	case LookWordBoundary, LookNoWordBoundary:
+		b.byteClassSet.SetRange('0', '9')
+		b.byteClassSet.SetRange('A', 'Z')
+		b.byteClassSet.SetRange('_', '_')
+		b.byteClassSet.SetRange('a', 'z')
+	case LookStartLine, LookEndLine:
+		b.byteClassSet.SetRange('\n', '\n')
+	}
 	id := StateID(conv.IntToUint32(len(b.states)))
 	b.states = append(b.states, State{
 		id:   id,
